@@ -16,7 +16,7 @@ from mc.script import plain, site_of
 
 ID = 'C18'
 LEVEL = 'model_checking'
-CASE_TIMEOUT = 20
+CASE_TIMEOUT = 8
 RULE = ('all rooted object graphs with <= k containers (types list/tuple/dict/set, <= 2 slots, slot = scalar or edge to any '
         'container incl. itself), all reachable from the root, x 3 entry points x 3 dict strategies x cycle options; distinct '
         '= distinct (graph, entry point, options, outcome class)')
@@ -35,6 +35,10 @@ MANIFEST = {
 }
 
 TYPES = ('list', 'tuple', 'dict', 'set')
+
+
+class Node:
+    """A custom object used as a graph node: its slots are the attributes a0, a1 (pydiff entry point only)."""
 
 
 def specs(k, scalars, maxslots=2, types=None):
@@ -116,6 +120,8 @@ def construct(spec):
             objs[i] = []
         elif typ == 'dict':
             objs[i] = {}
+        elif typ == 'obj':
+            objs[i] = Node()
     pending = [i for i in range(k) if objs[i] is None]
     for _ in range(k + 1):
         for i in list(pending):
@@ -141,6 +147,9 @@ def construct(spec):
         elif typ == 'dict':
             for n, (kind, v) in enumerate(slots):
                 objs[i][f'k{n}'] = v if kind == 's' else objs[v]
+        elif typ == 'obj':
+            for n, (kind, v) in enumerate(slots):
+                setattr(objs[i], f'a{n}', v if kind == 's' else objs[v])
     return objs[0]
 
 
@@ -155,6 +164,8 @@ def expected(spec, i=0, depth=0):
         return vals
     if typ == 'dict':
         return {f'k{n}': v for n, v in enumerate(vals)}
+    if typ == 'obj':
+        return {'#class': 'Node', **{f'a{n}': v for n, v in enumerate(vals)}}
     return Bag(vals)
 
 
@@ -176,14 +187,19 @@ def expected_with_placeholders(spec, i=0, stack=()):
         return vals
     if typ == 'dict':
         return {f'k{n}': v for n, v in enumerate(vals)}
+    if typ == 'obj':
+        return {'#class': 'Node', **{f'a{n}': v for n, v in enumerate(vals)}}
     return Bag(vals)
 
 
 def plain_with_placeholders(tree):
     from graphtage.builder import CyclicReference
+    from graphtage.pydiff import PyObj
     import graphtage
     if isinstance(tree, CyclicReference):
         return CYCLE
+    if isinstance(tree, PyObj):
+        return {'#class': plain(tree.class_name), **{plain(k.key): plain_with_placeholders(k.value) for k in tree.attrs}}
     if isinstance(tree, graphtage.KeyValuePairNode):
         from mc.gen import Pair
         return Pair(plain_with_placeholders(tree.key), plain_with_placeholders(tree.value))
@@ -198,6 +214,28 @@ def plain_with_placeholders(tree):
 
 def has_set(spec):
     return any(t == 'set' for t, _ in spec)
+
+
+def has_obj(spec):
+    return any(t == 'obj' for t, _ in spec)
+
+
+def option_faults(tree, options):
+    """Every mapping and list of the tree, at any depth, must have been built according to the options."""
+    import graphtage
+    out = []
+    for node in tree.dfs():
+        if isinstance(node, graphtage.MappingNode):
+            want = graphtage.DictNode if options.allow_key_edits else graphtage.FixedKeyDictNode
+            if not isinstance(node, want):
+                out.append(f'mapping built as {type(node).__name__}')
+            elif options.allow_key_edits and node.auto_match_keys != options.auto_match_keys:
+                out.append(f'mapping has auto_match_keys={node.auto_match_keys}')
+        elif isinstance(node, graphtage.ListNode) and not isinstance(node, graphtage.StringNode):
+            got = (node.allow_list_edits, node.allow_list_edits_when_same_length)
+            if got != (options.allow_list_edits, options.allow_list_edits_when_same_length):
+                out.append(f'list has (allow_list_edits, when_same_length)={got}')
+    return out
 
 
 def norm_obj(o):
@@ -252,9 +290,9 @@ def rec_history_eval(first, second):
 ENTRY = ('json', 'basic', 'pydiff')
 
 
-def convert(entry, obj, ds, check, ignore):
+def convert(entry, obj, ds, check, ignore, lm='on'):
     from graphtage.graphtage import BuildOptions
-    o = build_options((ds, 'on'))
+    o = build_options((ds, lm))
     o.check_for_cycles = check
     o.ignore_cycles = ignore
     if entry == 'json':
@@ -285,21 +323,23 @@ def evaluate(spec, wrap):
     outs = set()
     runs = 0
     exp = expected(spec) if cls != 'cyclic' else None
+    objs = has_obj(spec)
     for entry in ENTRY:
-        if wrap and entry != 'pydiff':
+        if (wrap or objs) and entry != 'pydiff':
             continue
         for ds in DICT_STRATEGIES:
             if cls == 'cyclic':
-                copts = ((True, False), (True, True))
+                copts = ((True, False, 'on'), (True, True, 'on'))
             else:
-                copts = ((True, False), (True, True), (False, False), (False, True))
-            for check, ignore in copts:
+                copts = ((True, False, 'on'), (True, True, 'on'), (False, False, 'on'), (False, True, 'on'),
+                         (True, False, 'off'), (True, False, 'samelen'))
+            for check, ignore, lm in copts:
                 obj = Holder(root) if wrap else root
                 runs += 1
-                tag = f'{entry}, dict={ds}, check_for_cycles={check}, ignore_cycles={ignore}'
+                tag = f'{entry}, dict={ds}, lists={lm}, check_for_cycles={check}, ignore_cycles={ignore}'
                 try:
                     with time_limit(CASE_TIMEOUT):
-                        tree = convert(entry, obj, ds, check, ignore)
+                        tree = convert(entry, obj, ds, check, ignore, lm)
                         err = None
                 except CaseTimeout:
                     fails.setdefault(f'conversion_does_not_terminate @ {entry} : {cls} graph, check={check}, ignore={ignore}', tag)
@@ -346,8 +386,23 @@ def evaluate(spec, wrap):
                 if contains_cyclic_reference(tree):
                     fails.setdefault(f'placeholder_in_acyclic_graph @ {entry} : {cls} graph', tag)
                     continue
+                faults = option_faults(tree, build_options((ds, lm)))
+                if faults:
+                    fails.setdefault(f'node_not_built_according_to_options @ {entry} : dict={ds}, lists={lm}', f'{tag}: {faults[0]}')
+                    continue
                 if wrap:
                     outs.add(h((entry, 'wrapped ok')))
+                    continue
+                if objs:
+                    try:
+                        got = plain_with_placeholders(tree)
+                        if canon(got) != canon(exp):
+                            fails.setdefault(f'tree_structure_differs_from_original @ {entry} : custom objects, dict={ds}', f'{tag}: {got!r} vs {exp!r}')
+                            continue
+                    except Exception as e:  # noqa
+                        fails.setdefault(f'tree_unreadable {type(e).__name__} @ {entry} : custom objects', f'{tag}: {e!r}')
+                        continue
+                    outs.add(h((entry, ds, 'objects', canon(exp))))
                     continue
                 try:
                     raw = tree.to_obj()
@@ -397,9 +452,20 @@ def all_specs(tier):
         yield from specs(4, (1,), maxslots=1)
 
 
+def object_specs(tier):
+    """Graphs whose nodes are custom objects (and lists): rings, self references, sharing - pydiff entry point."""
+    q = tier == 'quick'
+    yield from specs(1, (1, 'a'), types=('obj',))
+    yield from specs(2, (1,), types=('obj', 'list'))
+    yield from specs(3, (1,), maxslots=2 if not q else 1, types=('obj',))
+    if not q:
+        yield from specs(3, (1,), maxslots=1, types=('obj', 'list', 'dict'))
+        yield from specs(4, (1,), maxslots=1, types=('obj',))
+
+
 def jobs(tier):
     seen = set()
-    for spec in all_specs(tier):
+    for spec in itertools.chain(all_specs(tier), (sp for sp in object_specs(tier) if has_obj(sp))):
         key = repr(spec)
         if key in seen:
             continue
